@@ -74,6 +74,10 @@ pub enum Kind {
     /// executed here: the subshell leaves with them in effect, as its EXIT
     /// trap sees; the parent is not affected
     ExecCmd,
+    /// `( trap 'io ...' EXIT; exit 3 REDIRS )`: the redirections of the `exit`
+    /// built-in last as long as that command, like any other's: the EXIT trap
+    /// runs with the descriptors the subshell had before
+    ExitCmd,
 }
 
 #[derive(Clone, Debug, Serialize, Deserialize, PartialEq)]
@@ -217,6 +221,7 @@ pub fn generate(rng: &mut Rng, tier: Tier) -> Case {
                 Kind::FuncAssign,
                 Kind::ExecCmd,
                 Kind::ExecCmd,
+                Kind::ExitCmd,
                 Kind::NotFoundAssign,
                 Kind::NotFoundAssign,
             ]),
@@ -239,7 +244,7 @@ pub fn generate(rng: &mut Rng, tier: Tier) -> Case {
             _ => rng.range(0, 4),
         };
         let mut redirs: Vec<Redir> = (0..nr).map(|_| gen_redir(rng, &mut word, own10)).collect();
-        if matches!(kind, Kind::Exec | Kind::Eval | Kind::Colon) && !last && !interactive || kind == Kind::ExecCmd {
+        if matches!(kind, Kind::Exec | Kind::Eval | Kind::Colon) && !last && !interactive || matches!(kind, Kind::ExecCmd | Kind::ExitCmd) {
             // a failing redirection on a special built-in makes the shell exit;
             // keep those for the final command and use benign operands here
             for r in &mut redirs {
@@ -355,6 +360,7 @@ pub fn render(c: &Case) -> String {
                     Kind::ForC => format!("for i in 1; do io {o}; done {rs}"),
                     Kind::Subshell => format!("( io {o} ) {rs}"),
                     Kind::ExecCmd => format!("( trap 'io {o}' EXIT; exec nosuch_cmd {rs} )"),
+                    Kind::ExitCmd => format!("( trap 'io {o}' EXIT; exit 3 {rs} )"),
                     Kind::Eval => format!("eval 'io {o}' {rs}"),
                     // (interactive programs: the commands run by `command`
                     // include one the shell has to wait for, so that a SIGINT
@@ -734,6 +740,22 @@ impl Model {
             Kind::Exec => {
                 self.fds = fds.clone();
                 e.status_zero = true;
+            }
+            Kind::ExitCmd => {
+                // the trap action runs after the redirections were undone
+                let before = self.fds.clone();
+                let mut paths = BTreeMap::new();
+                for d in before.values() {
+                    if let DK::File(p) = &self.descs[*d].kind {
+                        paths.insert(*d, p.clone());
+                    }
+                }
+                e.during = Some(before.clone());
+                e.during_paths = paths;
+                for op in ops {
+                    e.results.push(self.io(&before, op));
+                }
+                e.status_zero = false;
             }
             _ => {
                 let mut paths = BTreeMap::new();
